@@ -77,6 +77,61 @@ def job(j: dict) -> dict:
             "stray": stray, "bad": bad, "exit": r["exit"]}
 
 
+def observe(lang: str, src: str, where: dict, viols: list) -> dict:
+    counts: dict = {}
+    stray, bad = [], []
+    for v in viols:
+        line = v["line"]
+        if line in where:
+            slot, vid = where[line]
+            counts[(slot, vid)] = counts.get((slot, vid), 0) + 1
+            m = MSG.search(v["message"])
+            txt = m.group(1) if m else ""
+            ok = txt == R.SPELL[vid]
+            try:
+                ok = ok or float(int(txt, 0)) == float(R.NUM[vid])
+            except ValueError:
+                try:
+                    ok = ok or float(txt.replace("_", "")) == float(R.NUM[vid])
+                except ValueError:
+                    pass
+            if not ok:
+                bad.append([line, txt, R.SPELL[vid]])
+        else:
+            stray.append([line, v["message"][:60], src.split("\n")[line - 1][:60] if 0 < line <= src.count("\n") else ""])
+    return {"observed": [{"slot": s_, "v": v_, "n": n} for (s_, v_), n in sorted(counts.items())],
+            "stray": stray, "bad": bad}
+
+
+def job_mixed(j: dict) -> dict:
+    """One directory, one plain file per language, a distinct allowed_numbers / max_small_integer per language
+    through per-language overrides (the base values are decoys); one run."""
+    drive.preload()
+    import os
+    import yaml
+    root = Path(j["root"])
+    root.mkdir(parents=True)
+    (root / ".git").mkdir()
+    sec: dict = {"allowed_numbers": [424242], "max_small_integer": 2}
+    per = {}
+    for n, c in enumerate(j["cases"]):
+        src, where, _nonlit = R.render(c["lang"], [tuple(i) for i in j["items"][c["lang"]]])
+        C01.selfcheck(c["lang"], src)
+        fname = f"{'abc'[n]}_probe." + R.EXT[c["lang"]]
+        (root / fname).write_text(src)
+        per[fname] = (c, src, where)
+        sec[c["lang"]] = {"allowed_numbers": [R.NUM[v] for v in c["allowed"]], "max_small_integer": c["maxSmall"]}
+    (root / ".thailint.yaml").write_text(yaml.safe_dump({"magic-numbers": sec}))
+    r = drive.cli_json(["magic-numbers", "."] if j["salt"] % 2 else ["magic-numbers", *sorted(per)], cwd=root)
+    if r["violations"] is None:
+        return {"error": f"no JSON (exit {r['exit']}): {r['stderr'][-300:]}"}
+    out = []
+    for fname, (c, src, where) in per.items():
+        vs = [v for v in r["violations"] if os.path.basename(v["file_path"]) == fname]
+        out.append(dict(observe(c["lang"], src, where, vs), case=c))
+    return {"files": out}
+
+
 def run(chk) -> None:
     quick = chk.tier == "quick"
     drive.preload()
@@ -130,6 +185,22 @@ def run(chk) -> None:
         records.append({"lang": j["lang"], "allowed": j["allowed"], "maxSmall": j["maxSmall"], "fileKind": j["fileKind"],
                         "observed": v["observed"], "stray": len(v["stray"]), "badvalue": len(v["bad"])})
         meta.append((j, v))
+    # mixed-language directories: each language gets its own configuration through per-language overrides
+    plain = {l: [c for c in cases if c["lang"] == l and c["fileKind"] == "plain"] for l in items}
+    mjobs = []
+    for k in range(30 if quick else 250):
+        trio = [plain[l][(k * 7 + i * 3) % len(plain[l])] for i, l in enumerate(("python", "typescript", "rust"))]
+        chk.rng.shuffle(trio)
+        mjobs.append({"cases": trio, "items": items, "salt": k, "root": str(scratch_root() / f"c02-m{k}")})
+    mres = pool.run_jobs(job_mixed, mjobs, nproc=NCPU, timeout=600)
+    for j, r_ in zip(mjobs, mres):
+        if not r_.ok or "error" in r_.value:
+            raise MachineryError(f"C02 mixed-language job failed: {r_.error if not r_.ok else r_.value['error']}")
+        for f in r_.value["files"]:
+            c = f["case"]
+            records.append({"lang": c["lang"], "allowed": c["allowed"], "maxSmall": c["maxSmall"], "fileKind": "plain",
+                            "observed": f["observed"], "stray": len(f["stray"]), "badvalue": len(f["bad"])})
+            meta.append((dict(c, mixed=True), f))
     verdicts = trace.validate(chk, "MagicNumbersTrace", "mc/MagicNumbersTrace.cfg", records, timeout=1800)
     for (j, v), (la, lb, at) in zip(meta, verdicts):
         case = {"lang": j["lang"], "allowed": j["allowed"], "maxSmall": j["maxSmall"], "fileKind": j["fileKind"]}
